@@ -117,8 +117,8 @@ SingleLaw ==
 SpellingLaw ==
   (Done /\ FamSeq[pid].tag[1] = "core") =>
      /\ \A i \in 1..7 : results[i].r.k = "none"
-     /\ \A i \in 9..11 : results[i] = results[8]
-     /\ results[12].r = [k |-> "value", v |-> MkList(<<MkSym("outer-helper"), MkSym("outer-ev"), MkSym("outer-p1"), MkSym("outer-rest"), MkSym("outer-all")>>)]
+     /\ \A i \in 9..12 : results[i] = results[8]
+     /\ results[13].r = [k |-> "value", v |-> MkList(<<MkSym("outer-helper"), MkSym("outer-ev"), MkSym("outer-p1"), MkSym("outer-rest"), MkSym("outer-all")>>)]
 (* C08: the faulting form is stopped with an error of the corresponding kind in every calling
    context; the interpreter keeps exactly the effects completed before it and goes on *)
 FaultLaw ==
